@@ -8,6 +8,11 @@ NUM_CONS = [{"min": 0}, {"max": 10}, {"exc_min": 0}, {"exc_max": 10}, {"mult_of"
 STR_CONS = [{"min_len": 1}, {"max_len": 3}, {"pattern": "^a"}, {"pattern": "^[a-z]+$"}, {"min_len": 2, "max_len": 4}, {"pattern": "^\\d{2}"}]
 ARR_CONS = [{"min_items": 1}, {"max_items": 2}, {"unique": True}, {"min_items": 1, "max_items": 3}, {"min_items": 2, "unique": True}]
 OBJ_CONS = [{"min_props": 1}, {"max_props": 2}, {"min_props": 1, "max_props": 3}]
+# second-level constraints (no pattern: two patterns cannot be merged)
+NUM_CONS2 = [{"min": 2}, {"max": 4}, {"max": 20}, {"min": -5}, {"exc_min": 1}, {"exc_max": 3}, {"mult_of": 2}, {"min": 0, "max": 3}]
+STR_CONS2 = [{"min_len": 2}, {"max_len": 10}, {"max_len": 2}, {"min_len": 0}, {"min_len": 1, "max_len": 3}]
+ARR_CONS2 = [{"min_items": 2}, {"max_items": 1}, {"max_items": 5}, {"unique": True}, {"min_items": 0}]
+OBJ_CONS2 = [{"min_props": 2}, {"max_props": 1}, {"max_props": 5}]
 KEY_PATTERNS = ["^x-", "^k_"]
 DEFAULTS = {"none": ["None"], "bool": ["False", "True"], "int": ["0", "7"], "float": ["0.5", "2.0"], "str": ["''", "'dflt'"]}
 
@@ -74,6 +79,21 @@ class Gen:
         return NewT(self.fresh("N"), self.prim(["int", "str"]))
 
     def constrained(self, depth, scope):
+        t = self.constrained1(depth, scope)
+        r = self.rng
+        if isinstance(t, Ann) and not isinstance(strip(t), Union_) and not isinstance(t.t, AnyT) and r.random() < 0.18:
+            # a second level of constraints on the same type (nested Annotated): both apply
+            b = strip(t)
+            pool = NUM_CONS2 if isinstance(b, Prim) and b.p in ("int", "float") else STR_CONS2 if isinstance(b, Prim) and b.p == "str" else ARR_CONS2 if isinstance(b, Coll) else OBJ_CONS2 if isinstance(b, MapT) else None
+            if pool:
+                outer = dict(r.choice(pool))
+                if isinstance(b, Coll) and b.c in ("set", "frozenset"):
+                    outer.pop("unique", None)
+                if outer:
+                    return Ann(t, outer)
+        return t
+
+    def constrained1(self, depth, scope):
         r = self.rng
         k = r.random()
         if k < 0.35:
